@@ -15,7 +15,7 @@ def corrupt(rng, spec):
     vs = _variants(s)
     kinds = ["version", "rel_type", "label", "date", "ctype", "cid", "no_base", "bp_version"]
     if vs:
-        kinds += ["vid", "vuid", "varch", "noarch", "blank_name", "lp_norelease", "vtype", "dup_uid", "lp_rel_type", "child_key_uid", "top_key"]
+        kinds += ["vid", "vuid", "varch", "noarch", "blank_name", "lp_norelease", "vtype", "dup_uid", "lp_rel_type", "child_key_uid", "top_key", "dup_child"]
     k = rng.choice(kinds)
     if k == "version":
         s["release"]["version"] = rng.choice(["1..2", "1.", "7x", "", "1.2\n"])
@@ -70,6 +70,13 @@ def corrupt(rng, spec):
             if kids:
                 c = rng.choice(rng.choice(kids)["variants"])
                 c["key"] = c["uid"]              # accepted by _validate_variants (key == uid); written by id
+        elif k == "dup_child":
+            kids = [x for x in vs if x["variants"]]
+            if kids:
+                p = rng.choice(kids)
+                c = copy.deepcopy(rng.choice(p["variants"]))
+                c["key"] = c["uid"]              # the same child a second time, under its UID: written once, read back once
+                p["variants"].append(c)
         elif k == "top_key":
             t = rng.choice(s["variants"])
             t["key"] = rng.choice([t["uid"], t["id"] + "x"])
@@ -90,7 +97,11 @@ class C01(Prop):
     assumptions = ["json.load inverts json.dump on the documents the writer produces (stdlib; exercised by every case)",
                    "typed model: attributes hold values of the validated types; forest as built by add() (child.parent = container node)",
                    "str.lower modelled on ASCII only (release type case-fold; exact for every type in RELEASE_TYPES)"]
-    partial = {}
+    partial = {"C01_readback": "hypotheses WellKeyed (dict keys = ids, no key twice: what add() builds) and UidsDistinct (decidable) are explicit; "
+                               "that a successful serialize of a WellKeyed forest implies UidsDistinct is argued informally, only "
+                               "C01_duplicate_uids_agree (conflicting duplicates are refused) is proved",
+               "C01_fixpoint": "same hypotheses as C01_readback",
+               "C01_bytes": "same hypotheses; json.load inverting the printer is the explicit hypothesis hjson"}
 
     def __init__(self):
         self._cache = {}
@@ -229,7 +240,7 @@ class C01(Prop):
         if not lo or "ok" not in lo:
             return {"observed": {"loads": lo}, "required": "the written text loads again", "kind": "reload-refused"}
         got = F.canon(lo["ok"])
-        if a.get("raw") and a.get("corrupt") in ("child_key_uid", "top_key", "dup_uid"):
+        if a.get("raw") and a.get("corrupt") in ("child_key_uid", "top_key", "dup_uid", "dup_child"):
             # key conventions / duplicate UIDs are outside the quantifier (hypotheses of the theorems); correspondence only
             pass
         elif got != want:
